@@ -31,7 +31,7 @@ def case(g, tier, ci):
         # one deviant channel, overwriting an existing one or added as a new channel
         ch = r.choice(chans) if r.random() < 0.6 else "dev"
         if r.random() < 0.5:
-            SR2 = r.choice([SR * 2, SR * 1.5, SR + 1])
+            SR2 = r.choice([SR * 2, SR * 1.5, SR + 1, SR * (1 + 2 ** -19)])     # the last: equal to 6 significant digits
             sr_dev = True
             N2 = N
         else:
